@@ -494,3 +494,133 @@ Proof.
     unfold assert_placement in AP. apply andb_prop in AP. destruct AP as [A1 A2]. unfold cn in A1.
     rewrite A1, A2. reflexivity.
 Qed.
+
+(* ------------------------------------------------------------------ ANY bijective layout gives a valid placement *)
+Lemma is_perm_spec n m : is_perm n m = true -> length m = n /\ NoDup m /\ forall x, In x m -> x < n.
+Proof.
+  unfold is_perm. intro H. apply andb_prop in H. destruct H as [H H3]. apply andb_prop in H. destruct H as [H1 H2].
+  apply Nat.eqb_eq in H1. apply nodupb_NoDup in H2. rewrite forallb_forall in H3.
+  repeat split; auto. intros x Hx. apply Nat.ltb_lt. apply H3. exact Hx.
+Qed.
+
+Lemma perm_surj n m p : is_perm n m = true -> p < n -> In p m.
+Proof.
+  intros H Lp. destruct (is_perm_spec n m H) as (L & ND & B).
+  assert (I : incl (seq 0 n) m).
+  { apply (NoDup_length_incl ND); [rewrite seq_length; lia|]. intros x Hx. apply in_seq. split; [lia|]. apply B. exact Hx. }
+  apply I. apply in_seq. lia.
+Qed.
+
+Lemma index_of_lt x l : In x l -> index_of x l < length l /\ nth (index_of x l) l 0 = x.
+Proof.
+  induction l as [|y l IH]; intro H; [destruct H|]. cbn [index_of].
+  destruct (y =? x) eqn:E.
+  - apply Nat.eqb_eq in E. subst. cbn. split; [lia | reflexivity].
+  - destruct H as [->|H]; [rewrite Nat.eqb_refl in E; discriminate|].
+    destruct (IH H) as [A B]. cbn. split; [lia | exact B].
+Qed.
+
+Lemma index_of_nth l i : NoDup l -> i < length l -> index_of (nth i l 0) l = i.
+Proof.
+  intros ND L. apply index_of_first; auto. intros k Lk E.
+  assert (k = i); [|lia]. apply (proj1 (NoDup_nth l 0) ND); auto; lia.
+Qed.
+
+Theorem layout_gives_placement keys m :
+  NoDup keys -> is_perm (length keys) m = true ->
+  length (wires_of_layout keys m) = length keys /\
+  forall w, In w (wires_of_layout keys m) <-> In w keys.
+Proof.
+  intros NDk P. destruct (is_perm_spec _ _ P) as (L & NDm & B).
+  unfold wires_of_layout. split; [rewrite map_length, seq_length; reflexivity|].
+  intro w. rewrite in_map_iff. split.
+  - intros (p & <- & Hp). apply in_seq in Hp. apply nth_In.
+    destruct (index_of_lt p m (perm_surj _ _ p P (proj2 Hp))) as [A _]. lia.
+  - intro H. destruct (In_nth _ _ 0 H) as (i & Li & E).
+    exists (nth i m 0). split.
+    + rewrite index_of_nth; auto. lia.
+    + apply in_seq. split; [lia|]. cbn. apply B. apply nth_In. lia.
+Qed.
+
+Theorem layout_placer_contract d c m :
+  NoDup (dnodes d) -> assert_placement d c = true -> is_perm (length (dnodes d)) m = true ->
+  placer_contract d c (wires_of_layout (dnodes d) m) = true.
+Proof.
+  intros ND AP P. destruct (layout_gives_placement _ _ ND P) as [L S].
+  unfold placer_contract. rewrite AP, L, Nat.eqb_refl. cbn [andb].
+  unfold same_set. apply andb_true_intro. split; apply subsetb_intro; intros q Hq; apply S; exact Hq.
+Qed.
+
+(* Random: whatever the sampled layouts and the greedy choice, the result is a valid placement *)
+Lemma random_loop_in keys es pairs : forall samples best bestc,
+  let r := random_loop keys es pairs best bestc samples in r = best \/ In r samples.
+Proof.
+  induction samples as [|m rest IH]; intros best bestc; cbn [random_loop]; [left; reflexivity|].
+  destruct (random_cost _ pairs =? 0); [right; left; reflexivity|].
+  destruct (random_cost _ pairs <? bestc).
+  - destruct (IH m (random_cost (relabel_edges keys m es) pairs)) as [E|E]; [right; left; symmetry; exact E | right; right; exact E].
+  - destruct (IH best bestc) as [E|E]; [left; exact E | right; right; exact E].
+Qed.
+
+Lemma is_perm_seq n : is_perm n (seq 0 n) = true.
+Proof.
+  unfold is_perm. rewrite seq_length, Nat.eqb_refl. cbn [andb].
+  apply andb_true_intro. split.
+  - assert (H : forall k s, nodupb (seq s k) = true).
+    { induction k as [|k IH]; intro s; cbn; auto. rewrite IH, andb_true_r. apply negb_true_iff.
+      destruct (mem s (seq (S s) k)) eqn:M; auto. apply mem_In in M. apply in_seq in M. lia. }
+    apply H.
+  - apply forallb_forall. intros x Hx. apply in_seq in Hx. apply Nat.ltb_lt. lia.
+Qed.
+
+Theorem random_placer_contract d c pairs samples :
+  NoDup (dnodes d) -> assert_placement d c = true ->
+  (forall m, In m samples -> is_perm (length (dnodes d)) m = true) ->
+  placer_contract d c (random_placer d pairs samples) = true.
+Proof.
+  intros ND AP H. unfold random_placer. apply layout_placer_contract; auto.
+  match goal with |- is_perm _ (random_loop ?k ?e ?p ?b ?bc ?s) = true =>
+    destruct (random_loop_in k e p s b bc) as [E|E] end.
+  - rewrite E. apply is_perm_seq.
+  - apply H. exact E.
+Qed.
+
+Lemma subgraph_loop_in pairs nedges : forall fuel i result answers m,
+  subgraph_loop fuel nedges pairs i result answers = Some m ->
+  result = Some m \/ exists b, In (b, m) answers.
+Proof.
+  induction fuel as [|f IH]; intros i result answers m H; cbn [subgraph_loop] in H.
+  - destruct answers as [|[[|] m0] rest]; try discriminate. left. exact H.
+  - destruct answers as [|[[|] m0] rest]; try discriminate.
+    + destruct ((nedges =? _) || (S i =? _)).
+      * inversion H; subst. right. exists true. left. reflexivity.
+      * destruct (IH _ _ _ _ H) as [E|(b & E)].
+        -- inversion E; subst. right. exists true. left. reflexivity.
+        -- right. exists b. right. exact E.
+    + left. exact H.
+Qed.
+
+Theorem subgraph_placer_contract d c pairs answers w :
+  NoDup (dnodes d) -> assert_placement d c = true ->
+  (forall b m, In (b, m) answers -> is_perm (length (dnodes d)) m = true) ->
+  subgraph_placer d pairs answers = Some w ->
+  placer_contract d c w = true.
+Proof.
+  intros ND AP H. unfold subgraph_placer. destruct (length pairs <? 2); [discriminate|].
+  destruct (subgraph_loop _ _ pairs 0 None answers) as [m|] eqn:E; [|discriminate].
+  intro Hw. inversion Hw; subst w. apply layout_placer_contract; auto.
+  destruct (subgraph_loop_in _ _ _ _ _ _ _ E) as [F|(b & F)]; [discriminate|]. eapply H; eauto.
+Qed.
+
+Theorem reverse_traversal_placer_contract d c :
+  assert_placement d c = true -> placer_contract d c (reverse_traversal_placer c) = true.
+Proof.
+  intro AP. unfold placer_contract, reverse_traversal_placer. rewrite AP. cbn [andb].
+  unfold assert_placement, cn in AP. apply andb_prop in AP. destruct AP as [A1 A2]. rewrite A1, A2. reflexivity.
+Qed.
+
+(* measured registers: a placer leaves every gate, hence every measurement gate with its register
+   and qubits, untouched *)
+Theorem placer_keeps_measurements d w c c' :
+  place d w c = Some c' -> filter is_meas (cgates c') = filter is_meas (cgates c).
+Proof. intro H. destruct (placer_contract_preserves _ _ _ _ H) as (E & _). rewrite E. reflexivity. Qed.
